@@ -74,7 +74,10 @@ BRcDom(img, b) ==
   IF BKind(img, b) = "m"
   THEN LET rk == Defs[img[b][2]].rk IN { rk[k] : k \in 1 .. Len(rk) }
   ELSE {}
-BHdr(img) == Defs[img[0][2]].h
+NoHdr == [ver |-> 0, cb |-> 0, ro |-> 0, vsz |-> 0, vszb |-> 0, l1c |-> 0, l1ua |-> 1, l1n |-> 0,
+          rtc |-> 0, rtua |-> 1, rtn |-> 0, crypt |-> 0, inc |-> 0, snap |-> 0, back |-> 0,
+          hlen |-> 0, comp |-> 0]
+BHdr(img) == IF BKind(img, 0) = "h" THEN Defs[img[0][2]].h ELSE NoHdr
 
 F == INSTANCE Qcow2Format
 
@@ -345,7 +348,9 @@ Ret ==
      /\ \/ /\ c.op = "read"
            \* every returned block is a value the block held while the read
            \* was in flight  (C01 / C06)
-           /\ ok => \A i \in 1 .. Min(Len(ev.toks), Cardinality(c.blocks)) :
+           \* (concurrent runs: enabling condition = search over linearization
+           \*  points; sequential runs: reported by Inv_C01 with the details)
+           /\ (ok /\ R0.par = 1) => \A i \in 1 .. Min(Len(ev.toks), Cardinality(c.blocks)) :
                       LET b == c.gb + i - 1 IN
                       b \in DOMAIN c.seen =>
                         (ev.toks[i] \in c.seen[b] \/ Unknown \in c.seen[b])
@@ -485,6 +490,14 @@ Inv_Open == (Fresh /\ Last.e = "OpenRes") => Last.res = "ok"
 
 \* C13 / C07b / C17a: the result of the call that has just returned
 RetNow == Fresh /\ Last.e = "Ret" /\ lastc.id = Last.id
+
+\* C01: a read returns, for every block, a value of the flat reference disk
+ReadBad ==
+  { i \in 1 .. Min(Len(Last.toks), Cardinality(lastc.blocks)) :
+      LET b == lastc.gb + i - 1 IN
+      b \in DOMAIN lastc.seen /\ ~(Last.toks[i] \in lastc.seen[b] \/ Unknown \in lastc.seen[b]) }
+Inv_C01 == (RetNow /\ lastc.op = "read" /\ Last.res = "ok") => ReadBad = {}
+C01Detail == { <<lastc.gb + i - 1, Last.toks[i], lastc.seen[lastc.gb + i - 1]>> : i \in ReadBad }
 RetAdmissible ==
   LET c == lastc IN
   IF c.op = "write" THEN Last.res \in ExpectWrite(c.cls, c.n)
@@ -523,8 +536,20 @@ C04Detail ==
 C05Bad == { gb \in GBs : ~(Unknown \in sync.val[gb]
                            \/ GuestCrash(gb) \in sync.val[gb] \cup sync.later[gb]) }
 
+\* the independently built initial image must be valid under the spec and
+\* read back as the builder's ground truth: otherwise builder, decoder and
+\* specification disagree - a tool error, never a violation
+InitialOK ==
+  (l = ri + 1 /\ ~crashed /\ R0.src = "build") =>
+     /\ F!WellFormed(vis, G) /\ F!Exact(vis, G)
+     /\ \A gb \in GBs : GuestVis(gb) = R0.init[gb + 1]
+
 Audit ==
   /\ TLCSet(ri, Max(TLCGet(ri), IF crashed THEN 0 ELSE l))
+  /\ ~InitialOK => Out(<<"TOOLERR", R0.name, ri, "initial image: builder/decoder/spec disagree",
+                          IF F!TablesOK(vis, G) THEN <<F!Undercounted(vis, G), F!Leaked(vis, G)>> ELSE <<"tables">>,
+                          { gb \in GBs : GuestVis(gb) # R0.init[gb + 1] }>>)
+  /\ ~Inv_C01 => Report("C01", C01Detail)
   /\ ~Inv_C02 => Report("C02", <<"blocks", BadBlocks>>)
   /\ ~Inv_C03 => Report("C03", C03Detail)
   /\ ~Inv_C04 => Report("C04", C04Detail)
